@@ -117,11 +117,19 @@ impl Array {
         let (a, a_transpose) = a;
         let (b, b_transpose) = b;
 
-        let input_dimensions = if a.dimensions.len() >= b.dimensions.len() {
+        let longer_dimensions = if a.dimensions.len() >= b.dimensions.len() {
             &a.dimensions
         } else {
             &b.dimensions
         };
+
+        // broadcast the leading dimensions of both arrays, and keep the matrix dimensions of the longer
+        let mut input_dimensions = element_wise_dimensions(
+            &a.dimensions[..a.dimensions.len().saturating_sub(2)],
+            &b.dimensions[..b.dimensions.len().saturating_sub(2)],
+        );
+        input_dimensions.extend(&longer_dimensions[longer_dimensions.len().saturating_sub(2)..]);
+        let input_dimensions = &input_dimensions;
 
         // TODO OpenCL
         let output_rows = if a.dimensions.len() < 2 && (!a_transpose || b.dimensions.len() < 2) {
